@@ -343,6 +343,13 @@ class Materialised:
             return default_src(f["t"], lambda e: self.expr(e, at_mod=mod))
 
         classvars = spec.get("classvars", ()) if name == spec["name"] else ()
+
+        def cv_line(cv):
+            # "name" -> an int class variable; {"n": name, "t": spec} -> a class variable of that type holding its canonical default
+            if isinstance(cv, str):
+                return f"    {cv}: typing.ClassVar[int] = 7"
+            e = self.expr(cv["t"], at_mod=mod, quote_refs=not future)
+            return f"    {cv['n']}: typing.ClassVar[{e}] = {default_src(cv['t'], lambda x: self.expr(x, at_mod=mod))}"
         if fl in ("dataclass", "dc_slots", "dc_kwonly", "dc_frozen"):
             opts = {"dataclass": "", "dc_slots": "slots=True", "dc_kwonly": "kw_only=True", "dc_frozen": "frozen=True"}[fl]
             lines.append(f"@dataclasses.dataclass({opts})")
@@ -351,7 +358,7 @@ class Materialised:
                 d = f" = {dflt(f)}" if f.get("default") else ""
                 lines.append(f"    {f['n']}: {ann(f)}{d}")
             for cv in classvars:
-                lines.append(f"    {cv}: typing.ClassVar[int] = 7")
+                lines.append(cv_line(cv))
             if not fields and not classvars:
                 lines.append("    pass")
         elif fl == "namedtuple":
@@ -374,6 +381,8 @@ class Materialised:
             if fl != "sigonly":
                 for f in fields:
                     lines.append(f"    {f['n']}: {ann(f)}")
+                for cv in classvars:
+                    lines.append(cv_line(cv))
             fields = [*inherited, *fields]   # the constructor, __eq__ and __repr__ of a subclass cover every field
             if fl == "sigonly":
                 # no class-level annotations: the fields are what the constructor's signature says, written as text
